@@ -257,16 +257,19 @@ package tree
 // of the new leaf value with the siblings of that position under the previous root; under the new root the position
 // reads back the new value. leafNow is the ghost view of the current leaf values.
 //@ ghost field leafNow map[int]Hash
+//@ ghost var upsertCalls int
 //@ func (t *UpdatableTree) UpsertLeaf
 //@   props C11 C07
 //@   requires t != nil && t.Tree != nil && tx != nil && len(t.zeroHashes) == 33
 //@   requires rhtOK(rhtHas(t.Tree), rhtL(t.Tree), rhtR(t.Tree))
-//@   modifies rootHas(t.Tree), rootHash(t.Tree), rootBlock(t.Tree), rootPos(t.Tree), rhtHas(t.Tree), rhtL(t.Tree), rhtR(t.Tree), leafNow(t), stmtFail
+//@   modifies rootHas(t.Tree), rootHash(t.Tree), rootBlock(t.Tree), rootPos(t.Tree), rhtHas(t.Tree), rhtL(t.Tree), rhtR(t.Tree), leafNow(t), stmtFail, upsertCalls
+//@   set upsertCalls := old(upsertCalls) + 1
 //@   set leafNow(t) := ite(result1 == nil, upd(old(leafNow(t)), leaf.Index, leaf.Hash), old(leafNow(t)))
 //@   ensures[success-means-stored] result1 == nil ==> stmtFail == old(stmtFail)
 //@   ensures[rht-content-addressed] rhtOK(rhtHas(t.Tree), rhtL(t.Tree), rhtR(t.Tree))
 //@   ensures[root-row-stored] result1 == nil ==> rootHas(t.Tree)[leaf.Index] && rootHash(t.Tree)[leaf.Index] == result0 && rootBlock(t.Tree)[leaf.Index] == blockNum && rootPos(t.Tree)[leaf.Index] == blockPosition
 //@   ensures[new-value-reads-back] result1 == nil ==> desc(rhtL(t.Tree), rhtR(t.Tree), result0, leaf.Index, 0) == leaf.Hash
+//@   ensures[call-counted] upsertCalls == old(upsertCalls) + 1
 //@   ensures[ghost-view] leafNow(t) == ite(result1 == nil, upd(old(leafNow(t)), leaf.Index, leaf.Hash), old(leafNow(t)))
 //@   loop 0 unroll 32
 //@   loop 0 invariant currentChildHash == foldUp(leaf.Hash, siblings, leaf.Index, h)
